@@ -138,6 +138,9 @@ def record_case(case, workdir):
                      "OBSBW": 1.5, "OBSFREQ": 1.0, "SCANLEN": 99.0})
         if case["nant"] > 1:
             user["NANTS"] = 17
+    if case.get("overlap"):
+        # user cards whose keys also exist in the header template, including zero values
+        user.update({"SCAN": 0, "DROPTOT": 0.0, "FFTLEN": 256, "NBIN": 0, "BANKNAM": "MYBANK"})
     if case["directio"] is not None:
         user["DIRECTIO"] = case["directio"]
     if case["pkt0"]:
@@ -176,9 +179,14 @@ def record_case(case, workdir):
                         owned_bad.append((k, v, g))
                 user_bad = []
                 for k, v in given.items():
-                    if k in OWNED or k in ("PKTIDX", "DIRECTIO"):
+                    if k in OWNED or k == "PKTIDX":
                         continue
                     g = h.get(k)
+                    if k == "DIRECTIO":
+                        try:
+                            g, v = int(g), int(v)
+                        except (TypeError, ValueError):
+                            pass
                     if isinstance(v, float):
                         ok = isinstance(g, (int, float)) and float(g) == v
                     else:
